@@ -180,7 +180,7 @@ func (m *vMonC05) AfterTx(h *vHist, o *vTxObs) {
 			if b.State == mtypes.BidActive {
 				m.res.Count("bid_closed_while_matched", 1)
 			}
-			if moved[pa.Owner] == 1 && pa.State == etypes.AccountOpen {
+			if moved[pa.Owner] == 1 && pa.State == etypes.AccountOpen && len(o.Msgs) == 1 {
 				got := post.Bank[pa.Owner].Sub(pre.Bank[pa.Owner])
 				if !got.Equal(pa.Balance.Amount) {
 					h.Violation("bid-deposit-returned-when-bid-ends", kind+"/bid-"+nb.State.String(),
@@ -201,7 +201,7 @@ func (m *vMonC05) AfterTx(h *vHist, o *vTxObs) {
 		if !ok1 || !ok2 || pa.State != etypes.AccountOpen {
 			continue
 		}
-		if moved[pa.Owner] == 1 && na.State == etypes.AccountClosed {
+		if moved[pa.Owner] == 1 && na.State == etypes.AccountClosed && len(o.Msgs) == 1 {
 			// unspent = balance before minus what this tx's settlement moved to payees
 			unspent := pa.Balance.Amount.Sub(na.Transferred.Amount.Sub(pa.Transferred.Amount))
 			got := post.Bank[pa.Owner].Sub(pre.Bank[pa.Owner])
